@@ -82,17 +82,18 @@ Definition get_aas_traced (ref que : list N) (r2m : list nat) (g : region) : res
 Definition get_aas (ref que : list N) (r2m : list nat) (g : region) : res (list variant) :=
   match get_aas_traced ref que r2m g with Ok l => Ok (map fst l) | Err e => Err e | Panic => Panic end.
 
-(* ---- GetVariantsPair: merge, stable sort by (Position, Changetype), drop del@0 and adjacent duplicates ---- *)
+(* ---- GetVariantsPair: merge, stable sort by (Position, Changetype), drop del@0 and every repeated record (the seen-map of
+   repair D20; before it only a record equal to the last kept one was dropped) ---- *)
 Definition v_lt (a b : variant) : bool :=
   (v_pos a <? v_pos b)%Z || ((v_pos a =? v_pos b)%Z && (kind_rank (v_kind a) <? kind_rank (v_kind b))%Z).
 Definition t_lt (a b : traced) : bool := v_lt (fst a) (fst b).
-Fixpoint dedupe (prev : option variant) (l : list traced) : list traced :=
+Fixpoint dedupe (seen : list variant) (l : list traced) : list traced :=
   match l with
   | [] => []
   | v :: t =>
-      if (match v_kind (fst v) with KDel => true | _ => false end) && (v_pos (fst v) =? 0)%Z then dedupe prev t
-      else if match prev with Some p => variant_eqb (fst v) p | None => false end then dedupe prev t
-      else v :: dedupe (Some (fst v)) t
+      if (match v_kind (fst v) with KDel => true | _ => false end) && (v_pos (fst v) =? 0)%Z then dedupe seen t
+      else if existsb (variant_eqb (fst v)) seen then dedupe seen t
+      else v :: dedupe (fst v :: seen) t
   end.
 Fixpoint all_aas (ref que : list N) (r2m : list nat) (gs : list region) : res (list traced) :=
   match gs with
@@ -102,7 +103,7 @@ Fixpoint all_aas (ref que : list N) (r2m : list nat) (gs : list region) : res (l
 Definition variants_pair_traced (ref que : list N) (gs : list region) (inter : list nat) : res (list traced) :=
   let r2m := ref_to_msa ref in
   bind (all_aas ref que r2m gs) (fun aas =>
-    Ok (dedupe None (ssort traced t_lt (map (fun i => (mk_indel i, [])) (get_indels (cols_of_rows ref que)) ++
+    Ok (dedupe [] (ssort traced t_lt (map (fun i => (mk_indel i, [])) (get_indels (cols_of_rows ref que)) ++
                                          map trace_nuc (get_nucs ref que r2m inter) ++ aas)))).
 Definition variants_pair (ref que : list N) (gs : list region) (inter : list nat) : res (list variant) :=
   match variants_pair_traced ref que gs inter with Ok l => Ok (map fst l) | Err e => Err e | Panic => Panic end.
